@@ -121,10 +121,10 @@ struct Stats {
     }
 };
 
-struct Case { Tx fund, tx; int select = -1; uint32_t flags = F_STANDARD; std::string label; std::string klass; /* satisfaction class for keys */ bool must_refuse_selection = false; };
+struct Case { Tx fund, tx; int select = -1; uint32_t flags = F_STANDARD; std::string label; std::string klass; /* satisfaction class for keys */ bool must_refuse_selection = false; std::string amount_prefix; /* "a1,a2" given in front of the --tx hex (the referenced output decides, whatever it says) */ };
 
 inline J case_json(const Case& c, const char* engine, const char* mode) {
-    return JObj().put("engine", engine).put("mode", mode).put("tx", hex(ser_tx(c.tx))).put("txin", hex(ser_tx(c.fund))).put("select", c.select).put("flags", (long long)c.flags).put("label", c.label).put("klass", c.klass).j();
+    return JObj().put("engine", engine).put("mode", mode).put("tx", hex(ser_tx(c.tx))).put("txin", hex(ser_tx(c.fund))).put("select", c.select).put("flags", (long long)c.flags).put("label", c.label).put("klass", c.klass).put("amount_prefix", c.amount_prefix).j();
 }
 
 struct Outcome { bool refused = false; bool ran = false; bool all_steps_ok = false; bool valid = false; std::string err; int fail_step = -1; };
@@ -161,7 +161,7 @@ inline Outcome compare_session(const Case& c, Violations& V, Stats& S, const cha
     // ---- implementation: mirror of main()'s auto-configuration path
     impl::quiet_globals();
     Instance inst;
-    std::string txs = hex(ser_tx(c.tx)), fins = hex(ser_tx(c.fund));
+    std::string txs = (c.amount_prefix.empty() ? std::string() : c.amount_prefix + ":") + hex(ser_tx(c.tx)), fins = hex(ser_tx(c.fund));
     bool ok = true; std::string stage;
     try {
         if (!inst.parse_transaction(txs.c_str(), true)) { ok = false; stage = "parse_transaction"; }
